@@ -79,6 +79,9 @@ def check(case):
     from lark import Tree
 
     parse_cond, parse_ahb, resolve, is_valid_expression = _api()
+    failed = sut.preheat_parse_caches()
+    if failed is not None:
+        fail("cond-foreign", f"a parser raised {failed!r} for a well-formed string while the caches were being filled")
     text = case["s"]
     kind = case["kind"]  # "cond" | "ahb" | "other": what the generator built; only "well-formed" cases use it
     wellformed = case["class"] == "wellformed"
